@@ -125,6 +125,34 @@ theorem program_equivariant (cfg : Cfg) (prog : List Node)
   rw [blockSpec_eq, getD_map_range _ _ _ (outIdx_lt cfg _ _ _ _ _ hb hyc hio hw hj')]
   simp only [outPos_outIdx cfg _ _ _ _ _ hyc hio hw hj']
 
+/-- the end-to-end statement about one program: every output entry is the documented block map of the encoded arrays -/
+def IsBlockMap (cfg : Cfg) (prog : List Node) : Prop :=
+  ∀ (env : ℕ → ℝ) (t : ℕ), t < cfg.B * fOut cfg * totalDim cfg.out →
+    (interp (K := ℝ) env prog).getD t 0 =
+      fullSpecR cfg (coefR cfg) (unflatW cfg env) (unflatB cfg env) (unflatX cfg env)
+        (outPos cfg t).1 (outPos cfg t).2.1 (outPos cfg t).2.2.1 (outPos cfg t).2.2.2.1 (outPos cfg t).2.2.2.2
+
+/-- the end-to-end statement about one program: it commutes with every block-scalar family that is trivial on `0e` -/
+def Equivariant (cfg : Cfg) (prog : List Node) : Prop :=
+  ∀ (D : ℕ × Bool → ℕ → ℕ → ℝ), D (0, false) 0 0 = 1 → ∀ (env : ℕ → ℝ) (t : ℕ), t < cfg.B * fOut cfg * totalDim cfg.out →
+    (interp (K := ℝ) (actEnv cfg D env) prog).getD t 0 =
+      ∑ j ∈ Finset.range (irDim (cfg.out.getD (outPos cfg t).2.2.1 default)),
+        D (cfg.out.getD (outPos cfg t).2.2.1 default).2 (outPos cfg t).2.2.2.2 j *
+          (interp (K := ℝ) env prog).getD
+            (outIdx cfg (outPos cfg t).1 (outPos cfg t).2.1 (outPos cfg t).2.2.1 (outPos cfg t).2.2.2.1 j) 0
+
+/-- the three kernel certificates of a program give both end-to-end statements (instantiated for every program of a
+    run in `Cert/LIN/C08/Chain.lean`) -/
+theorem isBlockMap_of_certs (cfg : Cfg) (prog : List Node)
+    (cert : polysEq (interpPoly prog) (interpPoly (specProg cfg)) = true) (hblock : specAgrees cfg = true) :
+    IsBlockMap cfg prog :=
+  fun env t ht => program_entry cfg prog cert hblock env t ht
+
+theorem equivariant_of_certs (cfg : Cfg) (prog : List Node)
+    (cert : polysEq (interpPoly prog) (interpPoly (specProg cfg)) = true) (hblock : specAgrees cfg = true)
+    (hok : (validate cfg).isOk = true) : Equivariant cfg prog :=
+  fun D hD env t ht => program_equivariant cfg prog cert hblock hok D hD env t ht
+
 /-! ### the hypotheses are satisfiable -/
 
 /-- `2x0e + 1x1o → 3x0e + 1x1o + 1x1e`, default instructions, bias on the scalars, channels (2, 3) -/
